@@ -1,0 +1,14 @@
+//go:build verif
+
+// Contracts for the deductive verifier in /verif (comment-only file; see /verif/DESIGN.md).
+package apiversions
+
+//@ property C04 C12
+
+// Wire layout per version, from the Kafka protocol definition of this API (field order, types and the versions each field
+// exists in); the encoders and decoders are compiled from the struct tags, so the tags are checked against it.
+//@ wire Response
+//@   layout v0 ErrorCode int16, ApiKeys []ApiKeyResponse
+//@   layout v1..v2 ErrorCode int16, ApiKeys []ApiKeyResponse, ThrottleTimeMs int32
+//@ wire ApiKeyResponse
+//@   layout v0..v2 ApiKey int16, MinVersion int16, MaxVersion int16
